@@ -12,7 +12,7 @@ CONSTANTS
   MaxObj = 2
   GenMode = "menu"
   MaxLen = 3
-  MenuN = 15
+  MenuN = 17
   SelSeed = 1
   SelMod = 12
 SPECIFICATION GSpec
